@@ -52,7 +52,13 @@ def consume(s, i, in_attr):
         if k == st:
             # no digits: the characters consumed so far are flushed as they are
             return s[i:st], st
-        v = int(s[st:k], 16 if hexa else 10)
+        # the standard's accumulation (multiply, add), saturated: beyond U+10FFFF the exact value is irrelevant
+        base = 16 if hexa else 10
+        v = 0
+        for ch in s[st:k]:
+            v = v * base + int(ch, 16)
+            if v > 0x10FFFF:
+                v = 0x110000
         if k < n and s[k] == ";":
             k += 1
         return numeric_value(v), k
